@@ -174,8 +174,8 @@ INVARIANT InOrder
 TIERS = {
     "C07": {"quick": [(2, 2, 4, False, True, False, ["cls", "agen", "throwonly", "noclose"]), (2, 1, 4, False, True, True, ["send"])],
             "thorough": [(3, 3, 5, False, True, False, ["cls", "agen", "throwonly", "noclose"]), (3, 2, 5, False, True, True, ["send"]), (2, 2, 6, False, True, False, ["cls"])]},
-    "C08": {"quick": [(2, 2, 4, True, False, False, ["cls", "agen", "iterable", "sync"]), (2, 2, 4, True, True, False, ["cls"])],
-            "thorough": [(3, 3, 5, True, False, False, ["cls", "agen", "iterable", "sync"]), (3, 3, 5, True, True, False, ["cls", "agen"]), (2, 2, 6, True, True, True, ["send"])]},
+    "C08": {"quick": [(2, 2, 4, True, False, False, ["cls", "agen", "iterable", "sync", "noclose"]), (2, 2, 4, True, True, False, ["cls"])],
+            "thorough": [(3, 3, 5, True, False, False, ["cls", "agen", "iterable", "sync", "noclose"]), (3, 3, 5, True, True, False, ["cls", "agen"]), (2, 2, 6, True, True, True, ["send"])]},
 }
 
 
@@ -190,8 +190,13 @@ def replay_path(args):
                                          "path": [e["a"] for e in path], "step": j, **detail})]
 
     closed = set()   # handles ended explicitly (aclose by user/tool, leaving their scope)
+    # An iterator that cannot be closed is handed out as it is by scoped_iter ("nothing to take care of"): what C08
+    # says about the end of the block has no subject then.  What remains is the inside of the outermost block.
+    inblock_only = prop == "C08" and ukind == "noclose"
     for j, e in enumerate(path):
         a = e["a"]
+        if inblock_only and (a[0] in ("exit", "aclose") or (a[0] == "scope" and a[2] != 0) or (a[0] == "tool" and e["t"]["up"] - e["f"]["up"] < a[2] + (a[3] == "zip"))):
+            return []
         if a[0] in ("aclose", "tool") and e["f"]["kind"][a[1] - 1] == "borrow":
             closed.add(a[1])
         if a[0] == "exit":
@@ -219,6 +224,8 @@ def replay_path(args):
             if r[1] != exp_items:
                 return bad("tool-sees-wrong-items", j, {"expected": exp_items, "observed": r[1], "op": a})
         exp_c = {"up": exp_t["up"], "us": exp_t["us"], "uc": exp_t["uc"]}
+        if ukind == "noclose" and prop == "C08":   # nothing to observe at the iterator: the scope's end shows in its handles only
+            c["uc"] = exp_c["uc"]
         if ukind == "sync":   # a synchronous iterator has nothing to close: whether its view was closed shows in the handles only
             c["uc"] = exp_c["uc"]
             if exp_c["uc"] >= 1:      # ... and what its owner sees afterwards is not the library's business (skipped above)
@@ -239,6 +246,8 @@ def replay_path(args):
             return bad(cls, j, {"expected": exp_c, "observed": c, "op": a})
     # afterwards: every ended handle yields nothing and does not touch U; U serves its owner in order
     last_t = path[-1]["t"] if path else None
+    if inblock_only:
+        last_t = None
     if last_t is not None:
         for hid in range(1, last_t["nh"] + 1):
             if not last_t["alive"][hid - 1]:
